@@ -62,7 +62,7 @@ def strategy_impl(draw, tier):
         "values": values,
         "reverse_mappings": draw(st.booleans()),
         "decoy_first": draw(st.booleans()),
-        "layout": draw(st.sampled_from(["C", "C", "F", "view"])),
+        "layout": draw(st.sampled_from(["C", "C", "F", "view", "neg"])),
     }
 
 
